@@ -409,19 +409,15 @@ ALPHABET = [
 ]
 
 
-def _totality_table(prog: Program, ctx: Ctx) -> None:
-    """R6: the three parsers evaluated on every line sequence up to the bound over an alphabet of line shapes, under the option sets that select
-    different reader paths, with and without a parent: none raises, each returns a list of sections, the docstring object is unchanged."""
+def _totality_chunk(arg: tuple) -> tuple[int, list[tuple[str, str, str]]]:
+    """Worker: parse every sequence of the chunk under every configuration; -> (#parses, [(class key, message, where)])."""
     import inspect
     import itertools
 
-    from sa.absint import Obj, Raised
+    from sa.absint import Obj, Raised, StepLimit
 
-    ctx.rule("R6", "bounded-exhaustive totality: for every sequence of up to N lines over an alphabet of line shapes (titles, items, continuation lines, "
-                   "dash lines, field lists, blank lines), every style, the option sets that switch reader paths and three kinds of parent, the parser "
-                   "returns a list of sections without raising")
-    from sa.absint import StepLimit
-
+    overlay, seqs, thorough = arg
+    prog = Program(overlay=overlay or None)
     it = Interp(prog, max_depth=40, max_steps=50_000)
     it.stubs["_griffe.docstrings.utils.parse_docstring_annotation"] = lambda _i, ann, _ds, **_k: ann
     it.stubs["_griffe.docstrings.utils.docstring_warning"] = lambda _i, *_a, **_k: None
@@ -436,15 +432,9 @@ def _totality_table(prog: Program, ctx: Ctx) -> None:
         "numpy": [{}, {"ignore_init_summary": True}],
         "sphinx": [{}],
     }
-    thorough = ctx.tier == "thorough"
-    depth = 3 if thorough else 2
-    # quick: single lines, and every pair of lines after a summary and a blank line (where sections are recognised); thorough: all sequences up to 3 lines too
-    seqs = [(a,) for a in ALPHABET] + [("Summary line.", "", a, b) for a, b in itertools.product(ALPHABET, repeat=2)]
-    if thorough:
-        seqs += [s for n_ in range(2, depth + 1) for s in itertools.product(ALPHABET, repeat=n_)]
-        seqs += [("Summary line.", "", a, b, c) for a, b, c in itertools.product(ALPHABET[:18], repeat=3)]
     n = 0
-    reported: set[str] = set()
+    found: list[tuple[str, str, str]] = []
+    seen: set[str] = set()
     for style, opts_list in configs.items():
         fn = prog.function(f"_griffe.docstrings.{style}.parse_{style}")
         hung = False
@@ -477,15 +467,46 @@ def _totality_table(prog: Program, ctx: Ctx) -> None:
                 if problem is None:
                     continue
                 cls_key = f"{style}|{problem}|{sorted(opts)}|{pname}"
-                if cls_key in reported:
+                if cls_key in seen:
                     continue
-                reported.add(cls_key)
-                ctx.ob("R6", f"total|{cls_key}", False, f"parse_{style}({value!r}, {opts or 'default options'}, {pname}) {problem}", where(fn))
+                seen.add(cls_key)
+                found.append((cls_key, f"parse_{style}({value!r}, {opts or 'default options'}, {pname}) {problem}", where(fn)))
+    return n, found
+
+
+def _totality_table(prog: Program, ctx: Ctx) -> None:
+    """R6: the three parsers evaluated on every line sequence up to the bound over an alphabet of line shapes, under the option sets that select
+    different reader paths, with and without a parent: none raises, each returns a list of sections, the docstring object is unchanged."""
+    import itertools
+
+    ctx.rule("R6", "bounded-exhaustive totality: for every sequence of up to N lines over an alphabet of line shapes (titles, items, continuation lines, "
+                   "dash lines, field lists, blank lines), every style, the option sets that switch reader paths and three kinds of parent, the parser "
+                   "returns a list of sections without raising")
+    thorough = ctx.tier == "thorough"
+    depth = 3 if thorough else 2
+    # quick: single lines, and every pair of lines after a summary and a blank line (where sections are recognised); thorough: all sequences up to 3 lines too
+    seqs = [(a,) for a in ALPHABET] + [("Summary line.", "", a, b) for a, b in itertools.product(ALPHABET, repeat=2)]
+    if thorough:
+        seqs += [s for n_ in range(2, depth + 1) for s in itertools.product(ALPHABET, repeat=n_)]
+        seqs += [("Summary line.", "", a, b, c) for a, b, c in itertools.product(ALPHABET[:18], repeat=3)]
+    import os
+    from concurrent.futures import ProcessPoolExecutor
+
+    jobs = min(16 if thorough else 4, os.cpu_count() or 4)
+    with ProcessPoolExecutor(max_workers=jobs) as ex:
+        results = list(ex.map(_totality_chunk, [(dict(prog.overlay), seqs[i::jobs], thorough) for i in range(jobs)]))
+    n = sum(r[0] for r in results)
+    reported: set[str] = set()
+    for _n, found in results:
+        for cls_key, msg, loc in found:
+            if cls_key in reported:
+                continue
+            reported.add(cls_key)
+            ctx.ob("R6", f"total|{cls_key}", False, msg, loc)
     ctx.ob("R6", f"total|{n} parses", True, f"{n} parses (sequences up to {depth} lines over {len(ALPHABET)} line shapes) returned sections without raising", "", nontrivial=True)
     if not reported:
         ctx.expect_min("R6", n, 4000)
     ctx.analysed["totality_parses"] = n
-
 
 def _root_name(node: ast.AST) -> str | None:
     while isinstance(node, (ast.Attribute, ast.Subscript)):
